@@ -238,6 +238,7 @@ structure VoteInfo where
 /-- DistributeReward (as repaired: truncating division for the share fraction). -/
 def distributeReward (s : State) (height : Int) (votes : List VoteInfo) : Outcome State :=
   if height < 2 then .ok s
+  else if votes.isEmpty then .ok s    -- repair of F9: a first block (any initial height) carries no last commit
   else
     let total : Int := votes.foldl (fun acc v => acc + v.power) 0
     if total = 0 then .err "zero-power"
